@@ -132,7 +132,7 @@ def check(run):
         has_df = ('m_dont_fragment', True) in txt
         cmpa = [q.cmp_atom(a) for a, p in cj if q.cmp_atom(a) and p]
         # the size compared with the MTU is the datagram's total size: the very local the function returns as "bytes sent"
-        lhs = q.linform(st, cmpa[0][1], q.const_local_subst(st)) if len(cmpa) == 1 else None
+        lhs = q.linform(st, cmpa[0][1]) if len(cmpa) == 1 else None
         total = list(lhs[0])[0] if lhs and len(lhs[0]) == 1 and lhs[1] == 0 and list(lhs[0].values()) == [1] else None
         final = [q.render(st, r_['e']) for r_ in q.returns(st) if r_.get('e') is not None and not any(y is r_ for y in walk(n['then']))]
         form = len(cj) == 2 and has_df and len(cmpa) == 1 and cmpa[0][0] == '>' and total is not None and total in final and q.render(st, cmpa[0][2]) == 'mtu'
